@@ -587,11 +587,15 @@ int hwloc_topology_diff_apply(hwloc_topology_t topology,
 	return 0;
 
 cancel:
-	tmpdiff2 = tmpdiff;
-	tmpdiff = diff;
-	while (tmpdiff != tmpdiff2) {
-		hwloc_apply_diff_one(topology, tmpdiff, flags ^ HWLOC_TOPOLOGY_DIFF_APPLY_REVERSE);
-		tmpdiff = tmpdiff->generic.next;
+	/* undo the entries that were applied, starting from the last one,
+	 * several entries may have modified the same attribute one after the other.
+	 */
+	for(err = nr-1; err > 0; err--) {
+		int i;
+		tmpdiff2 = diff;
+		for(i=1; i<err; i++)
+			tmpdiff2 = tmpdiff2->generic.next;
+		hwloc_apply_diff_one(topology, tmpdiff2, flags ^ HWLOC_TOPOLOGY_DIFF_APPLY_REVERSE);
 	}
 	errno = EINVAL;
 	return -nr; /* return the index (starting at 1) of the first element that couldn't be applied */
